@@ -283,6 +283,12 @@ def _system(case, rng):
 
     from vlib import gen
     mol = gen.make_mol(case["mol"], case["basis"], rng, jitter=0.03)
+    if case.get("idx", 0) % 2 == 1:
+        # the same geometry specified in Bohr (half of the cases): code that rebuilds helper molecules from mol.atom must
+        # carry the unit along - added after a seeded change that dropped unit= in the NLDF generator's helper molecule
+        from pyscf import gto
+        mol = gto.M(atom=[(mol.atom_symbol(i), tuple(mol.atom_coord(i))) for i in range(mol.natm)], unit="Bohr", basis=mol.basis,
+                    spin=mol.spin, charge=mol.charge, verbose=0)
     uks = case["spin"] == "uks"
     mf = (dft.UKS if uks else dft.RKS)(mol)
     mf.xc = "lda,vwn"
